@@ -6,7 +6,7 @@ exp = json.load(open(os.path.join(V, 'seeded', 'EXPECTED.json')))
 rows = []
 for sid in sorted(exp):
     m = json.load(open(os.path.join(V, 'seeded', sid, 'meta.json')))
-    rows.append((sid, m.get('property'), (m.get('breaks') or '').replace('|', '/').replace('\n', ' ')[:230], ' '.join(exp[sid]) or '**none**'))
+    rows.append((sid, m.get('property'), (m.get('breaks') or m.get('summary') or '').replace('|', '/').replace('\n', ' ')[:230], ' '.join(exp[sid]) or '**none**'))
 with open(os.path.join(V, 'seeded', 'README.md'), 'w') as f:
     f.write('# Seeded breaking changes\n\nEach directory holds `patch.diff` (applies to /repo HEAD), `demo.cpp` (exits 0 without the patch, non-zero with it) and '
             '`meta.json` (what it breaks, what it needs to manifest, what was run). All were written by independent sub-agents that saw only the '
@@ -16,6 +16,34 @@ with open(os.path.join(V, 'seeded', 'README.md'), 'w') as f:
     f.write('| id | written for | change | reported by |\n|---|---|---|---|\n')
     for r in rows:
         f.write('| %s | %s | %s | %s |\n' % r)
+    why = {
+        'C14-20': 'NOT DECIDED: float versus double rounding of count * ratio (DESIGN.md section 0 / 13.6)',
+        'C03-18': 'exit 2: std::prev(end(), m_used_size) - an iterator distance that is a run-time quantity',
+        'C15-18': 'exit 2: the random engine moved into a function-local static / thread_local (the model\'s rng members are gone)',
+        'C07-27': 'exit 2: as C15-18 (twin pair RF4)',
+        'C03-19': 'exit 2: an expired entry erased and its key re-inserted within one operation (twin pair PD2)',
+        'C11-19': 'exit 2: hinted multimap insertion with a computed hint (twin pair PC1)',
+        'C11-20': 'exit 2: slots collected as pointers in a local container (twin pair QC1)',
+        'C10-20': 'exit 2: slots collected as pointers in a local container (twin pair QA1)',
+        'C14-22': 'exit 2: aging re-file skipped depending on the place among equal counts (twin pair QC3)',
+        'C16-20': 'exit 2: ttl re-file skipped depending on the neighbouring key (twin pair QD2)',
+        'C16-21': 'exit 2: the stored ttl iterator member removed (twin pair RD2)',
+        'C06-22': 'exit 2: hand-written spinning acquire() helper (twin pair QF3)',
+        'C06-28': 'exit 2: reader locks on a shared_mutex (twin pair RF2)',
+        'C02-22': 'exit 2: mark-and-sweep erase_range over a vector<bool> (twin pair RA4)',
+        'C08-20': 'exit 2: two-pass erase_range through a local vector of iterators (twin pair RE2)',
+        'C09-21': 'exit 2: try_emplace + size() comparison + undo (twin pair RE4)',
+        'C02-9': 'exit 2: two-phase erase through a local vector of iterators (same shape as the neutral twin RE2)',
+        'C19-11': 'exit 2: as C02-9',
+        'C08-10': 'exit 2: as C02-9 (ut_map)',
+    }
+    none = [r for r in rows if r[3] == '**none**']
+    if none:
+        f.write('\n## Not reported\n\nThese end ANALYSIS-INCOMPLETE (exit 2) on the checks concerned - the engine names the construct it has no semantics for - '
+                'or, for C14-20, are outside what is decided.  For the twin pairs the behaviour-preserving twin ends the same way, which is why no verdict is given.\n\n')
+        f.write('| id | why |\n|---|---|\n')
+        for r in none:
+            f.write('| %s | %s |\n' % (r[0], why.get(r[0], 'exit 2 (see `./check %s --repo <patched tree>`)' % r[1])))
     n = sum(1 for r in rows if r[3] != '**none**')
     f.write('\n%d of %d seeded changes are reported by at least one check; %d by the check of the property they were written for.\n'
             % (n, len(rows), sum(1 for r in rows if r[1] in r[3].split())))
